@@ -228,6 +228,15 @@ func c06triple(db, rp, m string) []ev.Finding {
 	q := influxql.QuoteIdent(db, rp, m)
 	text := "SELECT f FROM " + q
 	wit := fmt.Sprintf("QuoteIdent(%q, %q, %q) = %s", db, rp, m, q)
+	// the same call with the caller's own slice spread out: the slice is the caller's, and a second call gives the same text
+	parts := []string{db, rp, m}
+	q2 := influxql.QuoteIdent(parts...)
+	if parts[0] != db || parts[1] != rp || parts[2] != m {
+		return []ev.Finding{{Sig: "QuoteIdent-changes-its-argument", Witness: wit, Detail: fmt.Sprintf("after QuoteIdent(parts...) the caller's slice holds %q", parts), Case: cs}}
+	}
+	if q3 := influxql.QuoteIdent(parts...); q2 != q || q3 != q {
+		return []ev.Finding{{Sig: "QuoteIdent-differs-between-calls", Witness: wit, Detail: fmt.Sprintf("spread call %s, second spread call %s", q2, q3), Case: cs}}
+	}
 	stmt, err := influxql.ParseStatement(text)
 	if err != nil {
 		return []ev.Finding{{Sig: "triple-rejected", Witness: wit, Detail: err.Error(), Case: cs}}
